@@ -88,5 +88,6 @@ RECURSIVE CbcMacFrom(_, _, _, _)
 CbcMacFrom(rk, d, i, prev) ==
     IF 16 * i > Len(d) THEN prev ELSE CbcMacFrom(rk, d, i + 1, EncBlockRK(rk, Xor16(Block(d, i), prev)))
 CbcMacRef(key, iv, d) == CbcMacFrom(RoundKeys(key), ZeroPad(d), 1, iv)
-IvOfIndex(n) == <<0,0,0,0, 0,0,0,0, 0,0,0,0, 0,0, n \div 256, n % 256>>
+\* the entry index as a 128-bit big-endian number (indices below 2^31 here: TLC integers)
+IvOfIndex(n) == <<0,0,0,0, 0,0,0,0, 0,0,0,0, (n \div 16777216) % 256, (n \div 65536) % 256, (n \div 256) % 256, n % 256>>
 =============================================================================
